@@ -25,7 +25,7 @@ CLAIM = {
             "returns cannot depend on the start values or on the damping path. Tied to the code by generated facts "
             "(start-value columns only seed PINIT/TINIT; the incompressible Nikuradse branch law is strictly "
             "increasing in m) and by a differential monitor over perturbed start values and both damping strategies.",
-    "note": "Partial: uniqueness is exact-solution mathematics; the distance between two approximately converged "
+    "note": "The damping clause is a theorem over C05's Newton-driver model (both strategies accept an iteration only through the same tolerance test; automatic only undamped). Partial: uniqueness is exact-solution mathematics; the distance between two approximately converged "
             "iterates is observed by the monitor (bound 1e-6 with solver tolerances 1e-9), not proved. Monotonicity is "
             "proved for the incompressible Nikuradse law and, in squared absolute pressures, for the isothermal "
             "constant-K level-pipe gas law (generated kernels); with pressure-dependent K, height terms for gases and "
@@ -269,6 +269,7 @@ def run(ctx):
         except Exception as e:
             ctx.broken("translator", name, repr(e))
     proved = ctx.prove("C08")
+    proved = ctx.prove("C08", props="PropsDamping") and proved     # driver-model theorem shared with C05
     rng = ctx.rng
     # fixed mix: ordinary generated nets + the low-flow meshes in which automatic damping rejects steps
     mult = 1 if ctx.quick else 14
